@@ -453,7 +453,20 @@ func (w *World) queueInfo(ssn *framework.Session) {
 			"w": int(g.OverQuotaWeight), "useG": milli(g.Usage),
 			"xG": exact(g.FairShare * 1000), "xC": exact(c.FairShare)}
 	}
-	w.emit(map[string]any{"ev": "QueueInfo", "q": out, "totG": milli(tot[rs.GpuResource]), "totC": int(tot[rs.CpuResource] + 0.5), "k": milli(k)})
+	// node accounting of the fresh session (C14 at snapshot construction): Idle / Used / Releasing per node
+	nodes := make([]map[string]any, len(w.Sc.Nodes))
+	for i := range w.Sc.Nodes {
+		ni := ssn.ClusterInfo.Nodes[w.Sc.Nodes[i].Name]
+		if ni == nil {
+			nodes[i] = map[string]any{"present": 0, "ic": 0, "uc": 0, "rc": 0, "im": 0, "um": 0, "rm": 0, "ig": 0, "rg": 0, "np": 0}
+			continue
+		}
+		nodes[i] = map[string]any{"present": 1,
+			"ic": int(ni.Idle.Cpu() + 0.5), "uc": int(ni.Used.Cpu() + 0.5), "rc": int(ni.Releasing.Cpu() + 0.5),
+			"im": mb(ni.Idle.Memory()), "um": mb(ni.Used.Memory()), "rm": mb(ni.Releasing.Memory()),
+			"ig": milli(ni.Idle.GPUs()), "rg": milli(ni.Releasing.GPUs()), "np": len(ni.PodInfos)}
+	}
+	w.emit(map[string]any{"ev": "QueueInfo", "q": out, "n": nodes, "totG": milli(tot[rs.GpuResource]), "totC": int(tot[rs.CpuResource] + 0.5), "k": milli(k)})
 }
 
 func (w *World) stmtHook(s *framework.Statement, ev string, task *pod_info.PodInfo, arg string) {
